@@ -1,4 +1,8 @@
-CONSTANTS Chans = {1, 2, 3, 4} Rows = {0, 7, 13, 14} Chars = {65, 98, 32, 42} MaxPairs = 14
+\* broad random walks over all four caption channels (also used by checks/c16.py with -depth 16)
+CONSTANTS Chans = {1, 2, 3, 4} Rows = {0, 1, 2, 3, 4, 5, 6, 7, 8, 9, 10, 11, 12, 13, 14} Chars = {65, 98, 32, 42} MaxPairs = 14
+  Indents = {0, 4, 8, 12, 16, 20, 24, 28} Depths = {2, 3, 4} Tabs = {1, 2, 3}
+  Kinds = {"RCL", "RDC", "EOC", "EDM", "ENM", "CR", "BS", "DER", "RU", "TO", "PAC", "PACX", "MID", "SPC", "NULL", "TEXT"}
+  Mix <- MixBroad Bursts <- BurstsWalk
 SPECIFICATION GSpec
 INVARIANT Dump
 CHECK_DEADLOCK FALSE
